@@ -256,8 +256,16 @@ func runC13(t *kernel.Tape, opt core.Opts) *core.Outcome {
 		o.Infra = "generated plan does not compile: " + err.Error() + " :: " + o.Sample
 		return o
 	}
-	var res *CallResult
-	s.Go("caller0", func() { res = doCall(env, r, call) })
+	var res, res2 *CallResult
+	twice := cancel == nil // the same failure twice: the second report must look like the first
+	s.Go("caller0", func() {
+		res = doCall(env, r, call)
+		if twice {
+			c2 := *call
+			c2.Tag = "r1"
+			res2 = doCall(env, r, &c2)
+		}
+	})
 	if cancel != nil {
 		s.Go("canceller", func() {
 			for i := 0; i < cancelAfter; i++ {
@@ -280,9 +288,25 @@ func runC13(t *kernel.Tape, opt core.Opts) *core.Outcome {
 		o.Violate("C13/panic-escaped-call", fmt.Sprintf("%s: %v", paradigmNames[call.Paradigm], res.Panic))
 		return o
 	}
+	if twice && (res2 == nil || !res2.Done) {
+		o.Violate("C13/hang", "the second call never returned; unfinished tasks: "+strings.Join(kr.Unfinished, ",")+"\n"+stacksOf(kr.Blocked))
+		return o
+	}
+	midStreamFault := false
+	for _, f := range faults {
+		if f.n.FailKind == 2 {
+			midStreamFault = true // whoever reads the error item first reports it
+		}
+	}
+	if twice && res2.Panic == nil && res.Err != nil && res2.Err != nil && len(faults) <= 1 && len(mr.AltErr) == 0 && !midStreamFault {
+		// a failure report does not depend on earlier failures of the same compiled object
+		if a, b := errShape(res.Err), errShape(res2.Err); a != b && errClass(res.Err) == errClass(res2.Err) {
+			o.Violate("C13/error-report-depends-on-earlier-runs", fmt.Sprintf("the same failure was reported as %q by the first call and as %q by the second", a, b))
+		}
+	}
 	triggered := map[string]*ExecRec{}
 	for _, e := range env.Execs {
-		if e.Failed {
+		if e.Failed && e.Tag == "r0" {
 			triggered[e.Path] = e
 		}
 	}
@@ -308,7 +332,16 @@ func runC13(t *kernel.Tape, opt core.Opts) *core.Outcome {
 		o.Stat("probe.step_limit_hit", 1)
 		if res.Err == nil {
 			o.Violate("C13/result-mismatch", "model says the step limit is exceeded, the run returned "+Canon(res.Out))
-		} else if !errors.Is(res.Err, compose.ErrExceedMaxSteps) {
+		} else if errors.Is(res.Err, compose.ErrExceedMaxSteps) {
+			// the error names the nested graph that ran out of steps (nothing for the top level)
+			want := ""
+			if mr.ErrPath != "" {
+				want = pathText(mr.ErrPath)
+			}
+			if got := nodePathOf(res.Err.Error()); got != want && len(mr.AltErr) == 0 {
+				o.Violate("C13/node-path-missing", fmt.Sprintf("step limit exceeded in graph %q: the error should carry %q, it carries %q", mr.ErrPath, want, got))
+			}
+		} else {
 			if strings.Contains(res.Err.Error(), compose.ErrExceedMaxSteps.Error()) {
 				o.Violate("C13/not-unwrappable:ErrExceedMaxSteps", "the run exceeded the step limit and says so, but errors.Is(err, compose.ErrExceedMaxSteps) is false: "+firstLine(res.Err.Error()))
 			} else {
@@ -412,4 +445,24 @@ func init() {
 		Real:   graphReal, Stub: graphStub,
 		Faults: []string{"node error", "node panic", "several nodes failing in one step", "error item mid-stream", "context cancellation", "step limit"},
 	})
+}
+
+// nodePathOf extracts the "node path: [...]" part of a run error ("" if absent).
+func nodePathOf(msg string) string {
+	i := strings.LastIndex(msg, "node path: [")
+	if i < 0 {
+		return ""
+	}
+	j := strings.IndexByte(msg[i:], ']')
+	if j < 0 {
+		return msg[i:]
+	}
+	return msg[i : i+j+1]
+}
+
+// errShape is the part of an error text that must not depend on anything but the failure
+// itself: first line plus node path, without stacks and addresses.
+func errShape(err error) string {
+	m := err.Error()
+	return firstLine(m) + " | " + nodePathOf(m) + " | " + errClass(err)
 }
